@@ -1201,7 +1201,7 @@ def gen_core(repo):
     out = HEADER % rel
     probs = []
     try:
-        v, _ = anchored_literal(src, "drop", r"for _ in 0\.\.(\w+) \{", "TEARDOWN_ROUNDS", impl=r"Drop for Stakker")
+        v, _ = anchored_literal(src, "drop", r"for \w+ in 0\.\.=?\s*(\w+)\s*\{", "TEARDOWN_ROUNDS", impl=r"Drop for Stakker")
         out += "(* %s: Stakker::drop drain rounds *)\nDefinition TEARDOWN_ROUNDS : Z := %d.\n\n" % (rel, v)
         v1, _ = anchored_literal(src, "new", r"recreate_queues_time: now \+ Duration::from_secs\((\w+)\)", "RECREATE_SECS", impl=r"Stakker")
         v2, _ = anchored_literal(src, "run", r"self\.recreate_queues_time = now \+ Duration::from_secs\((\w+)\)", "RECREATE_SECS", impl=r"Stakker")
@@ -1278,19 +1278,20 @@ def gen_waker(repo):
             d, ty = const_def(bm, c, consts, {}, relfile=rel)
             consts[c] = "u32"
             out += d.replace("Definition %s " % c, "Definition BITMAP_%s " % c).replace(" SIZE_BITS", " BITMAP_SIZE_BITS") if c == "SIZE" else d.replace("Definition SIZE_BITS ", "Definition BITMAP_SIZE_BITS ")
-        # BitMap::set split
+        # BitMap::set split: the first three `let` statements (whatever the locals are called):
+        # bit relative to the bitmap, leaf index, bit within the leaf
         _, _, body = find_fn(bm, "set")
-        m = re.search(r"let bit = (.*?);\s*let a = (.*?);\s*let b = (.*?);", body, re.S)
-        if not m:
-            raise TrError("BitMap::set: bit/a/b split not found")
+        lets = re.findall(r"let\s+(\w+)\s*=\s*(.*?);", body[:body.index("if ")], re.S)
+        if len(lets) != 3:
+            raise TrError("BitMap::set: expected three `let` statements (relative bit, leaf index, bit in leaf) before the climb")
         env = {"bit": ("bit", "u32")}
         cs = {"USIZE_INDEX_BITS": "u32", "USIZE_BITS": "u32"}
         tr = Tr(env, cs, subst={"self.base_index": ("base_index", "u32")})
-        ss = [("let", ("var", "bit"), None, parse_expr_text(m.group(1))), ("let", ("var", "a"), None, parse_expr_text(m.group(2))),
-              ("let", ("var", "b"), None, parse_expr_text(m.group(3))), ("tail", ("tuple", [("path", ["a"]), ("path", ["b"])]))]
+        ss = [("let", ("var", nm), None, parse_expr_text(ex)) for nm, ex in lets]
+        ss.append(("tail", ("tuple", [("path", [lets[1][0]]), ("path", [lets[2][0]])])))
         code, _ = tr.stmts(ss, None)
         out += fn_def("bitmap_split", ["bit", "base_index"], code, "%s: BitMap::set (leaf index a, bit b)" % rel)
-        if not re.search(r"if self\.tree\.child\[a\]\.set\(b\)\s*&& self\.tree\.summary\.set\(a\)\s*&& self\.pollwaker\.summary\.set\(self\.wake_index\)\s*\{\s*\(self\.pollwaker\.waker\)\(\);", body):
+        if not re.search(r"if self\.tree\.child\[\w+\]\.set\(\w+\)\s*&& self\.tree\.summary\.set\(\w+\)\s*&& self\.pollwaker\.summary\.set\(self\.wake_index\)\s*\{\s*\(self\.pollwaker\.waker\)\(\);", body):
             SOFT.append(rel + ": BitMap::set: climb condition not found")
         # drain recomposition
         _, _, dbody = find_fn(bm, "drain")
